@@ -444,3 +444,21 @@ package tacquito
 //@   loop 2 invariant -1 <= rangeindex && rangeindex < len(p.Body)
 //@   loop 2 invariant forall j int :: {p.Body[j]} 0 <= j && j <= rangeindex ==> p.Body[j] == xor8(old(p.Body[j]), padAt(*p.Header, secret, j))
 //@   loop 2 invariant forall j int :: {p.Body[j]} rangeindex < j && j < len(p.Body) ==> p.Body[j] == old(p.Body[j])
+
+//@ func (c *crypter) write(p *Packet) (n int, err error)
+//@   requires c != nil && c.Conn != nil
+//@   requires p != nil ==> p.Header != nil
+//@   requires p != nil ==> len(p.Body) <= 4294967295
+//@   modifies p.Header.Length, p.Body[..], ghost.nwrites, ghost.written, ghost.md5acc
+//@   ensures[C05,C06,C07] ghost.nwrites == old(ghost.nwrites) || ghost.nwrites == old(ghost.nwrites) + 1
+//@   ensures[C05,C06,C07] err == nil ==> ghost.nwrites == old(ghost.nwrites) + 1
+//@   ensures[C06] (p == nil || p.Body == nil) ==> err != nil && ghost.nwrites == old(ghost.nwrites)
+//@   ensures[C06] (p != nil && p.Body != nil) ==> p.Header.Length == len(p.Body)
+//@   ensures[C06] (p != nil && p.Body != nil && !valid.Header(*p.Header)) ==> err != nil && ghost.nwrites == old(ghost.nwrites)
+//@   ensures[C03,C05,C06] err == nil ==> len(ghost.written) == 12 + len(p.Body) && wire.Header(*p.Header, ghost.written[0:12])
+//@   ensures[C03,C05,C06] err == nil ==> (forall i int :: 0 <= i && i < len(p.Body) ==> ghost.written[12 + i] == p.Body[i])
+//@   ensures[C03,C06] (err == nil && old(p.Header.Flags) mod 2 == 1) ==> unchanged(p.Body[..])
+//@   ensures[C03,C06] (err == nil && old(p.Header.Flags) mod 2 == 0) ==>
+//@        (forall i int :: {p.Body[i]} 0 <= i && i < len(p.Body) ==> p.Body[i] == xor8(old(p.Body[i]), padAt(*p.Header, c.secret, i)))
+//@   ensures[C06] p != nil ==> p.Header.Version == old(p.Header.Version) && p.Header.Type == old(p.Header.Type) && p.Header.SeqNo == old(p.Header.SeqNo)
+//@        && p.Header.SessionID == old(p.Header.SessionID) && p.Header.Flags == old(p.Header.Flags) && len(p.Body) == old(len(p.Body))
